@@ -89,13 +89,13 @@ Definition check_max (n : nat) (I : list Z) : res unit :=
 
 (* ------------------------------------------------------------------ objects and their data children *)
 Inductive assoc := AVertex | ACell | AObject.
-Inductive dkind := KFloat | KInt | KBool.
+Inductive dkind := KFloat | KInt | KBool | KText.
 Inductive okind := OPoints | OCurve | OSurface.
 
 Definition assoc_eqb (a b : assoc) : bool :=
   match a, b with AVertex, AVertex | ACell, ACell | AObject, AObject => true | _, _ => false end.
 Definition dkind_eqb (a b : dkind) : bool :=
-  match a, b with KFloat, KFloat | KInt, KInt | KBool, KBool => true | _, _ => false end.
+  match a, b with KFloat, KFloat | KInt, KInt | KBool, KBool | KText, KText => true | _, _ => false end.
 Definition okind_eqb (a b : okind) : bool :=
   match a, b with OPoints, OPoints | OCurve, OCurve | OSurface, OSurface => true | _, _ => false end.
 
@@ -129,9 +129,11 @@ Definition n_values (o : obj) (a : assoc) : nat :=
 (* value that `np.ones(n) * self.nan_value` pads with *)
 Definition ndv (k : dkind) : option Z := match k with KBool => Some 0%Z | _ => None end.
 
-(* NumericData.format_length *)
+(* NumericData.format_length (pad / reject); TextData.values setter: a longer array is refused, a shorter one is stored
+   as it is (text data are never padded); text values are modelled by integer codes, None = "" *)
 Definition format_length (n : nat) (k : dkind) (a : assoc) (v : vals) : res vals :=
-  if length v <? n then Ok (v ++ repeat (ndv k) (n - length v))
+  if length v <? n then
+    match k with KText => Ok v | _ => Ok (v ++ repeat (ndv k) (n - length v)) end
   else if (n <? length v) && negb (assoc_eqb a AObject) then Err ValueError
   else Ok v.
 
@@ -305,6 +307,8 @@ Definition data_copy (n_new : nat) (m : option (list bool)) (k : kid) : res kid 
   | Some v, Some m =>
       if negb (Nat.eqb (length m) (length v)) then Err ValueError
       else
+        if negb (n_new <? length v) && dkind_eqb (kkind k) KText then Err TypeError   (* np.ones_like(str array) * "" *)
+        else
         let v' := if n_new <? length v then select m v else fill_masked (ndv (kkind k)) m v in
         match format_length n_new (kkind k) (kassoc k) v' with      (* the copy's constructor runs the values setter *)
         | Ok v'' => Ok (set_vals k0 (Some v''))
